@@ -81,13 +81,17 @@ Can(op) == ~ended /\ Len(hist) < MaxOps /\ op \in C.ops
    FAIL"; "marginal is true only if the outcome is PASS and some validator deems
    the recorded value marginal"; "a validator that raises marks the measurement
    FAIL and surfaces as an error ... raised at the assignment" *)
+\* "(plus conditional validators whose diagnosis result existed when the phase
+\* started)": C.cv are the validators declared with validate_on, C.cvon says
+\* whether their diagnosis result was in the store when the phase started
+SV == IF C.cvon THEN C.sv \o C.cv ELSE C.sv
 SetS(v) ==
   /\ Can("SetS")
   /\ LET x == T(C.st, v)
-         e == EvalS(C.sv, x) IN
+         e == EvalS(SV, x) IN
      /\ sval' = x
      /\ soc' = IF e = "PASS" THEN "PASS" ELSE "FAIL"
-     /\ smar' = (e = "PASS" /\ MarS(C.sv, x))
+     /\ smar' = (e = "PASS" /\ MarS(SV, x))
      /\ UNCHANGED <<ci, dvals, doc, dmar, evals, eoc, emar, ended, perr>>
      /\ Rec(<<"SetS", v>>, IF e = "RAISE" THEN "ValidatorError" ELSE "")
 
@@ -162,8 +166,8 @@ TypeOK == /\ sval \in {-1} \cup Vals /\ soc \in {"UNSET", "PASS", "FAIL"}
           /\ doc \in {"UNSET", "PARTIALLY_SET", "PASS", "FAIL"}
 
 UnsetIffNeverAssigned == (soc = "UNSET" <=> sval = -1) /\ (doc = "UNSET" <=> dvals = <<>>)
-OutcomeFormula == sval # -1 => (soc = "PASS" <=> EvalS(C.sv, sval) = "PASS")
-MarginalFormula == /\ smar => (soc = "PASS" /\ MarS(C.sv, sval))
+OutcomeFormula == sval # -1 => (soc = "PASS" <=> EvalS(SV, sval) = "PASS")
+MarginalFormula == /\ smar => (soc = "PASS" /\ MarS(SV, sval))
                    /\ dmar => (doc = "PASS" /\ MarD(C.dv, dvals))
 NoPartiallySet == ended => (doc # "PARTIALLY_SET" /\ eoc # "PARTIALLY_SET")
 SecondDimOutcome == (ended /\ evals # <<>>) => (eoc = "PASS" <=> EvalD(C.ev, evals) = "PASS")
